@@ -141,8 +141,21 @@ contract(B + ".concat", params=dict(self=BITS, b=BITS), returns=BITS,
          hints=[("concat_fits", ["self.value", "b.value", "self.length", "b.length"]),
                 ("bitlen_le", ["self.value * pow2(b.length) + b.value", "self.length + b.length"])],
          props=["C18", "C15"])
-contract(B + ".__add__", params=dict(self=BITS, other=BITS), returns=BITS,
+# concatenation of bit strings as one specification function (what callers reason with; keeps products out of their term graphs)
+bcat = specfn("bcat", [TInt, TInt, TInt], TInt, macro=True, opaque=True, py=lambda hv, ll, lv: hv * (1 << max(ll, 0)) + lv,
+              doc="value of the concatenation of a bit string of value hv with one of length ll and value lv")
+bcat.define = lambda hv, ll, lv: hv * pow2(ll) + lv
+lemma("bcat_fits", [x, y, n, m], Imp(And(0 <= x, 0 <= y, n >= 0, m >= 0, x < pow2(n), y < pow2(m)), And(0 <= bcat(x, m, y), bcat(x, m, y) < pow2(n + m))),
+      patterns=None, uses=["concat_fits"], use_inst=[("concat_fits", [x, y, n, m])], inline_defs=["bcat"], no_auto=True, unfold_only=[])
+lemma("bcat_high", [x, y, m], Imp(And(0 <= x, 0 <= y, m >= 0, y < pow2(m)), bcat(x, m, y) / pow2(m) == x),
+      patterns=None, uses=["concat_high"], use_inst=[("concat_high", [x, y, m])], inline_defs=["bcat"], no_auto=True, unfold_only=[])
+lemma("bcat_low", [x, y, m], Imp(And(0 <= x, 0 <= y, m >= 0, y < pow2(m)), bcat(x, m, y) % pow2(m) == y),
+      patterns=None, uses=["concat_low"], use_inst=[("concat_low", [x, y, m])], inline_defs=["bcat"], no_auto=True, unfold_only=[])
+lemma("bcat_divmod", [x, m], Imp(m >= 0, bcat(x / pow2(m), m, x % pow2(m)) == x),
+      patterns=None, uses=["pow2_pos"], use_inst=[("pow2_pos", [m])], inline_defs=["bcat"], no_auto=True, unfold_only=[])
+contract(B + ".__add__", reveal=["bcat"], params=dict(self=BITS, other=BITS), returns=BITS,
          ensures=["result.value == self.value * pow2(other.length) + other.value",
+                  "result.value == bcat(self.value, other.length, other.value)",
                   "result.length == self.length + other.length", "inv(result)"], props=["C18", "C15"])
 contract(B + ".get_higher_bits", params=dict(self=BITS, bit_len=TInt), returns=BITS, domains=dict(bit_len=SMALL),
          raises={"ValueError": dict(when="bit_len < 0 or bit_len > self.length", iff=True)},
